@@ -501,3 +501,69 @@ func (ex *Exec) saneClock(st *State, v Value) {
 	st.assume(mkCmp("le", mkInt(i64, 0), v.L[".sec"]))
 	st.assume(mkCmp("le", v.L[".sec"], mkInt(i64, 1<<40)))
 }
+
+// ---- AEAD (github.com/miscreant/miscreant.go as used here: NewAEAD("AES-CMAC-SIV", key, 16)) ----
+
+func init() {
+	reg("github.com/miscreant/miscreant.go.NewAEAD", "err == nil iff len(key) is 32 or 64; the AEAD has nonce size 16 (the constant passed at every call site)", func(ex *Exec, st *State, c *ast.CallExpr, r *Value, a []Value) []Value {
+		key := a[1]
+		okLen := mkOr(mkEq(key.L[".len"], mkInt(sortInt, 32)), mkEq(key.L[".len"], mkInt(sortInt, 64)))
+		aead := freshVar("aead", sortRef)
+		err := freshVar("err", sortRef)
+		st.assume(mkCmp("le", mathC(0), aead))
+		st.assume(mkCmp("le", mathC(0), err))
+		st.assume(mkEq(mkEq(err, mathC(0)), okLen))
+		st.assume(mkEq(mkEq(aead, mathC(0)), mkNot(okLen)))
+		// ghost: which key slice this AEAD was built from (plumbing obligations)
+		st.assume(mkEq(mkApp("aead!keyref", sortRef, aead), key.L[".ref"]))
+		st.assume(mkEq(mkApp("aead!keyoff", sortInt, aead), key.L[".off"]))
+		st.assume(mkEq(mkApp("aead!keylen", sortInt, aead), key.L[".len"]))
+		if ns, ok := a[2].L[""]; ok && !(ns.isConst() && ns.Val.Int64() == 16) {
+			unsupp("NewAEAD with a nonce size other than the constant 16")
+		}
+		t := c2tN(ex, c, 0)
+		return []Value{scalarV(t, aead), scalarV(ex.vc.errT, err)}
+	})
+	bt := types.Typ[types.Byte]
+	reg("(crypto/cipher.AEAD).Open", "panics unless len(nonce) == 16; on success the plaintext is a fresh slice of len(ciphertext)-16 bytes; authenticity itself is assumed (ideal AEAD), not proved", func(ex *Exec, st *State, c *ast.CallExpr, r *Value, a []Value) []Value {
+		nonce, ct := a[1], a[2]
+		ex.check(st, mkEq(nonce.L[".len"], mkInt(sortInt, 16)), "safety:panic", c, "AEAD.Open: incorrect nonce length")
+		err := freshVar("err", sortRef)
+		st.assume(mkCmp("le", mathC(0), err))
+		ok := mkEq(err, mathC(0))
+		st.assume(mkImplies(ok, mkCmp("le", mkInt(sortInt, 16), ct.L[".len"])))
+		ref := st.newRef()
+		ex.havocRange(st, bt, ref)
+		n := idxSub(ct.L[".len"], mkInt(sortInt, 16))
+		z := mkInt(sortInt, 0)
+		pt := Value{T: a[0].T, L: map[string]*Term{".ref": mkIte(ok, ref, mathC(0)), ".off": z, ".len": mkIte(ok, n, z), ".cap": mkIte(ok, n, z)}}
+		// ghost trace of the last Open on this path: (aead, nonce, ciphertext, associated data)
+		st.ghost["aead.open.aead"] = scalarV(nil, r.scalar())
+		st.ghost["aead.open.ad"] = a[3]
+		st.ghost["aead.open.nonce"] = nonce
+		st.ghost["aead.open.ct"] = ct
+		return []Value{pt, scalarV(ex.vc.errT, err)}
+	})
+	reg("(crypto/cipher.AEAD).NonceSize", "16: the nonce size every AEAD in this repository is constructed with", func(ex *Exec, st *State, c *ast.CallExpr, r *Value, a []Value) []Value {
+		return []Value{scalarV(types.Typ[types.Int], mkInt(sortInt, 16))}
+	})
+	reg("(crypto/cipher.AEAD).Seal", "panics unless len(nonce) == 16; the ciphertext is a fresh slice of len(plaintext)+16 bytes", func(ex *Exec, st *State, c *ast.CallExpr, r *Value, a []Value) []Value {
+		nonce, pt := a[1], a[2]
+		ex.check(st, mkEq(nonce.L[".len"], mkInt(sortInt, 16)), "safety:panic", c, "AEAD.Seal: incorrect nonce length")
+		ref := st.newRef()
+		ex.havocRange(st, bt, ref)
+		n := idxAdd(pt.L[".len"], mkInt(sortInt, 16))
+		st.ghost["aead.seal.aead"] = scalarV(nil, r.scalar())
+		st.ghost["aead.seal.ad"] = a[3]
+		st.ghost["aead.seal.pt"] = pt
+		return []Value{{T: a[0].T, L: map[string]*Term{".ref": ref, ".off": mkInt(sortInt, 0), ".len": n, ".cap": n}}}
+	})
+}
+
+func c2tN(ex *Exec, c *ast.CallExpr, i int) types.Type {
+	t := ex.info().TypeOf(c)
+	if tup, ok := t.(*types.Tuple); ok {
+		return tup.At(i).Type()
+	}
+	return t
+}
